@@ -1,6 +1,6 @@
 """C11 - span rounding/balancing/totals/compare (narrow): calendar units are refused without a reference on every path (REL-GUARD),
 window ends are measured from the reference (WINDOW), Span entry points cannot panic (E1), ranged values stay in range (E2)."""
-import os
+import os, re
 from .. import mir
 from ..term import Terms, show, walk, is_call, alts, match, V, C, TRY, ok_payloads
 from ..guards import guards, strip_not
@@ -159,8 +159,19 @@ def week_carry(rep, prog, rule="WEEK-CARRY"):
             if isinstance(x, tuple) and x and x[0] == "field" and x[2] == "days":
                 reads_days = True
         has7 = any(isinstance(x, tuple) and x and x[0] == "const" and x[1] == 7 for x in walk(a))
-        if reads_days and has7:
-            rep.ok(rule, "relative_calendar", how="the unit count of the window start reads balanced's days / 7", loc=loc)
+        # the day count carries the span's sign, so days / 7 must be sign-symmetric: rangeint's `/` is EUCLIDEAN (-17 / 7 == -3), its
+        # truncating division is `div_ceil` (wrapping_div); a plain `/` puts negative spans one week too far from the reference
+        by7 = [x for x in walk(a) if isinstance(x, tuple) and x and x[0] == "call" and len(x[2]) == 2
+               and any(isinstance(y, tuple) and y and y[0] == "const" and y[1] == 7 for y in walk(x[2][1]))
+               and re.search(r"ops::Div<.*>>::div$|::div_ceil$|::div_floor$|::div_euclid$", x[1])]
+        euclid = [x for x in by7 if not x[1].endswith("::div_ceil") and not any(is_call(y, "::abs") for y in walk(x[2][0]))]
+        if reads_days and has7 and by7 and euclid:
+            rep.violation(rule, "relative_calendar", "the whole weeks carried in the days are computed with %s, which floors: for a negative span "
+                          "(-17 days) it yields -3 weeks, the rounding window lies one week too far from the reference and the quotient is "
+                          "extrapolated from a neighbouring week (wrong neighbour in half modes when that week has a DST change: -(17d 12h 20m) "
+                          "from 2024-04-01 in America/New_York gives 2w ago instead of 3w ago)" % euclid[0][1].rsplit("::", 2)[-2:], loc)
+        elif reads_days and has7:
+            rep.ok(rule, "relative_calendar", how="the unit count of the window start reads balanced's days / 7 (truncating)", loc=loc)
         else:
             rep.violation(rule, "relative_calendar", "the span that positions the rounding window takes its count of `smallest` units from "
                           "that unit's own field only (%s): for smallest == Week and largest above Week the whole weeks carried in "
